@@ -20,7 +20,7 @@ CHECKS = {
  'C13': ('proof', "Verus proves on the whole tree_walker that the walk is built to follow links exactly when --dereference is set (so the contents of linked directories are walked, and loops arrive as error items, which are never swallowed), and on its per-entry slice that under --dereference no Link operation is ever queued, every entry is classified by what its canonical path leads to (file behind links -> Copy of the canonical path, directory behind links -> directory), and an entry that leads nowhere (dangling or cyclic link) makes the run fail; the option reaches the walker unchanged (Config::from). Partial: what walkdir delivers for a given follow_links setting is its documented behaviour, assumed (A-walk: walk_of(root, follow)); that a Copy transfers the referent's bytes is C01.", '§5 C13'),
  'C14': ('proof', "Verus proves copy_node issues exactly one mknod with the source's type, permission bits and device number (st_rdev), the FileType classification table, and the workers' replace/no-clobber logic for special files.", '§5 C14'),
  'C15': ('proof', "Verus proves the try_reflink mode table (never: no clone event; always: Ok only after a successful clone; auto: falls back), the FICLONE errno classification, and that the clone precedes any data copy in both drivers. That every spelling of --reflink=always/auto/never means that mode (string matching in Reflink::from_str, outside Verus) is checked by a BOUNDED exhaustive enumeration on the real function (labelled bounded, not counted as proved).", '§5 C15'),
- 'C16': ('proof', "Verus proves on the validation range of main() (slice) that it has no effect on the file system model at all and that reaching the copy phase implies every rejection class main checks itself has been ruled out (no source, missing source, directory without recursive, several sources onto a non-directory, directory onto a file, source textually equal to destination or its target base); opts_check rejects force+no-clobber. That unknown --reflink/--backup/--driver values are rejected (FromStr impls, string matching outside Verus) is checked by a BOUNDED enumeration on the real functions (labelled bounded). Partial: clap and glob parsing are external.", '§5 C16'),
+ 'C16': ('proof', "Verus proves on the validation range of main() (slice) that it has no effect on the file system model at all and that reaching the copy phase implies every rejection class main checks itself has been ruled out (no source, missing source, directory without recursive, several sources onto a non-directory, directory onto a file, source textually equal to destination or its target base); opts_check rejects force+no-clobber. That unknown --reflink/--backup/--driver values are rejected (FromStr impls, string matching outside Verus) and that under --glob a pattern selecting nothing is refused (expand_globs: iterator adapters over the glob crate) are checked by a BOUNDED enumeration on the real functions (labelled bounded). Partial: clap's parsing and the glob crate's matching are external.", '§5 C16'),
  'C17': ('proof', "Verus proves on xcp's own gitignore code (libxcp/src/paths.rs): without the option no matcher is built and the filter passes every entry; with it the matcher is anchored at the source root and reads exactly <source>/.gitignore; an entry passes iff the matcher does not exclude it when asked with the kind of the entry itself (directory-only patterns must not match a symbolic link to a directory). Partial: the matcher's pattern semantics (the `ignore` crate, assumed to be git's), that walkdir's filter_entry applies the filter to every entry and prunes beneath a rejected directory, and that a .gitignore that cannot be read is reported are not decided.", '§5 C17'),
  'C18': ('proof', "Verus proves fsync is the last event of finalisation when requested and absent otherwise; that it follows every data write of the handle rests on Rust drop/Arc semantics (assumed).", '§5 C10/C18'),
  'C19': ('proof', "Verus proves merge_extents coverage (every byte covered by the input is covered by the output) with explicit overflow obligations, map_extents completeness/order over any number of FIEMAP pages against the assumed FIEMAP contract, and the SEEK_DATA/SEEK_HOLE segment search, for all inputs with no bound.", '§5 C19'),
@@ -45,6 +45,7 @@ def main():
             'technique': ('contract-based deductive verification (Verus) of functions re-extracted from /repo on every run'
                           + ('; backup-name code by bounded exhaustive enumeration on the real functions (labelled bounded)' if pid == 'C09' else '')
                           + ('; the option-value tables (FromStr impls, string matching) by bounded exhaustive enumeration on the real functions (labelled bounded)' if pid in ('C09', 'C15', 'C16') else '')
+                          + ('; expand_globs by bounded exhaustive enumeration on the real function (labelled bounded)' if pid in ('C16', 'C02') else '')
                           + ('; Kani loop-free leaves on the compiled code in the thorough tier' if pid in ('C01', 'C05') else '')),
         })
     m = {
